@@ -47,9 +47,9 @@ RateO(k, g, regime, x) ==
          ESub(EQ(k.U[x]), EMul(EPolyAt(k.V[x], Sfx("bi", g), Sfx("bm", g)), EVar(Sfx("g0", g)))))
 
 Grains(c) == 1..Len(c.As)
-CaseProgram(c) ==
-    LET ks == [g \in Grains(c) |-> Kernel(c.fab, c.As[g], c.L)]
-        n == Len(c.As)
+Kernels(c) == [g \in Grains(c) |-> Kernel(c.fab, c.As[g], c.L)]
+CaseProgram(c, ks) ==
+    LET n == Len(c.As)
         ebar == ESum([g \in 1..n |-> EMul(EQ(c.f[g]), EVar(Sfx("E", g)))])
     IN [ fab |-> c.fab, regime |-> c.regime, L |-> MatToSeq(c.L),
          As |-> [g \in 1..n |-> MatToSeq(c.As[g])], f |-> c.f,
